@@ -10,7 +10,7 @@ STRS = ['', ' ', 'a', 'A', '1', '0', '-1', '+1', '01', '1.5', '1.', '.5', '1e5',
         '1 2', 'Arial', 'Arial, Helvetica', 'xx-large', 'P1', 'id-1', '1id', 'accidentalSharp', 'noteheadBlack']
 NUMS = ['0', '1', '-1', '2', '3', '4', '6', '7', '8', '9', '10', '16', '17', '99', '100', '101', '127', '128', '129', '180', '181', '-180', '-181', '16384', '16385',
         'True', 'False', '0.0', '0.5', '1.0', '-0.5', '1e-05', '1e16', '1e22', "float('nan')", "float('inf')", "-float('inf')", '100.5', '180.5', '-0.0', '123456789.125',
-        'None', '2.5', '99.9', '0.1', '3.0']
+        'None', '2.5', '99.9', '0.1', '3.0', '1.5', '1', '0.5']
 
 
 def all_literals(g):
